@@ -247,6 +247,74 @@ theorem loader_ttl (leaf : Option Int) :
   · omega
   · rfl
 
+/-! ### the loader on a timeline: slow certificate providers -/
+
+/-- `ttlAllowed` (the statement's predicate, also the driver's SPEC oracle) holds for `computeKeylessTTL`
+at the instant its `now` was read -/
+theorem ttl_allowed (d : Int) : ttlAllowed d (ttlOf d) = true := by
+  have h1 := ttl_bound d
+  have h2 := ttl_pos (some d)
+  simp only [computeTTL] at h2
+  simp [ttlAllowed, h1, h2]
+
+/-- allowed at a later instant ⇒ allowed at every earlier one (less validity has elapsed) -/
+theorem ttlAllowed_mono {d d' t : Int} (h : d ≤ d') (ha : ttlAllowed d t = true) : ttlAllowed d' t = true := by
+  simp only [ttlAllowed, Bool.and_eq_true, decide_eq_true_eq] at *
+  omega
+
+/-- **a slow provider never stretches the entry**: for every run in program order (the clock is read again
+after the provider answered), whatever the provider latency `ret − start`, a cached certificate's entry,
+whose lifetime starts no earlier than `now`, ends by `NotAfter − skew` — or is the 1 s floor for a certificate
+that is already inside the skew when it arrives. -/
+theorem loader_run_never_past_expiry (notAfter : Int) (r : Run) :
+    let t := loaderRunTTL .cert (some notAfter) r
+    0 < t ∧ (r.now + t ≤ notAfter - Gen.C30.keylessExpirySkew
+              ∨ (t = second ∧ notAfter - Gen.C30.keylessExpirySkew ≤ r.now)) := by
+  simp only [loaderRunTTL, Option.map, (loader_ttl (some (notAfter - r.now))).1, computeTTL]
+  refine ⟨by simpa [computeTTL] using ttl_pos (some (notAfter - r.now)), ?_⟩
+  rcases never_cached_past_expiry (notAfter - r.now) with h | ⟨h, h'⟩
+  · left; omega
+  · right; exact ⟨h, by omega⟩
+
+/-- the same, in the form the driver judges on every loader line: the TTL is allowed at the instant the
+provider returned (`ret ≤ now`), hence also at any earlier reading such as the loader's entry -/
+theorem loader_run_allowed (notAfter : Int) (r : Run) (h : r.ret ≤ r.now) :
+    ttlAllowed (notAfter - r.ret) (loaderRunTTL .cert (some notAfter) r) = true := by
+  have e : loaderRunTTL .cert (some notAfter) r = ttlOf (notAfter - r.now) := by
+    simp only [loaderRunTTL, Option.map, (loader_ttl (some (notAfter - r.now))).1, computeTTL]
+  rw [e]
+  exact ttlAllowed_mono (by omega) (ttl_allowed _)
+
+/-- the TTL of a run does not depend on when the loader was entered (`start` only feeds the log line) -/
+theorem loader_run_start_irrelevant (p : Provider) (na : Option Int) (s₁ s₂ ret now : Int) :
+    loaderRunTTL p na ⟨s₁, ret, now⟩ = loaderRunTTL p na ⟨s₂, ret, now⟩ := rfl
+
+/-- correspondence lemma for the driver: when the harness read the clock at `ret` (inside the provider,
+right before it returned) and at `after ≥ now`, the run's TTL is one `ttlReachable` accepts for the bracket
+`[NotAfter − after, NotAfter − ret]` -/
+theorem loader_run_reachable (notAfter after : Int) (r : Run) (h : r.ret ≤ r.now) (h' : r.now ≤ after) :
+    ttlReachable (notAfter - after) (notAfter - r.ret) (loaderRunTTL .cert (some notAfter) r) = true := by
+  have e : loaderRunTTL .cert (some notAfter) r = ttlOf (notAfter - r.now) := by
+    simp only [loaderRunTTL, Option.map, (loader_ttl (some (notAfter - r.now))).1, computeTTL]
+  rw [e, ttlReachable_iff _ _ _ (by omega)]
+  exact ⟨notAfter - r.now, by omega, by omega, rfl⟩
+
+/-- `ret ≤ now` is what the property rests on: computing the TTL from a clock reading taken BEFORE a provider
+that took `lat > 0` (e.g. re-using `start`) is rejected by `ttlAllowed` whenever more than the 1 s floor but
+less than `5 min + lat` of validity-after-skew was left at that stale reading. -/
+theorem stale_clock_overstays (notAfter stale ret : Int) (hlat : stale < ret)
+    (h1 : second < notAfter - stale - Gen.C30.keylessExpirySkew)
+    (h2 : notAfter - ret - Gen.C30.keylessExpirySkew < Gen.C30.keylessPositiveTTL) :
+    ttlAllowed (notAfter - ret) (ttlOf (notAfter - stale)) = false := by
+  have hps := pos_gt_second
+  simp only [ttlAllowed, Bool.and_eq_false_iff, decide_eq_false_iff_not]
+  right
+  unfold ttlOf second at *
+  simp only
+  split
+  · omega
+  · split <;> omega
+
 /-! ### non-vacuity -/
 
 def cfgEx : Cfg := ⟨"hello.com", "acme.example.com"⟩
@@ -264,5 +332,18 @@ example : (sign cfgEx kvEx (fun _ => none) (reqEx alice) 2 32 true true).res = s
 example : (sign cfgEx kvEx (fun _ => none) (reqEx alice) 0 32 true true).res = some .invAlgo := by decide
 example : ttlOf (Gen.C30.keylessExpirySkew + 7) = 7 ∧ ttlOf Gen.C30.keylessExpirySkew = second
     ∧ ttlOf (Gen.C30.keylessExpirySkew + 2 * Gen.C30.keylessPositiveTTL) = Gen.C30.keylessPositiveTTL := by decide
+
+/-- a run with a 3 s provider on a certificate with 2 s (after skew) left at entry: 1 s floor, allowed;
+with 10 s left and a 1.5 s provider: 8.5 s − ε; the stale-clock TTLs (2 s, 10 s) are both rejected -/
+def runEx (lat : Int) : Run := ⟨0, lat, lat + 1000⟩
+example : (runEx 3000000000).ordered ∧ loaderRunTTL .cert (some (Gen.C30.keylessExpirySkew + 2 * second)) (runEx 3000000000) = second
+    ∧ loaderRunTTL .cert (some (Gen.C30.keylessExpirySkew + 10 * second)) (runEx 1500000000) = 8499999000
+    ∧ ttlAllowed (Gen.C30.keylessExpirySkew + 10 * second - 1500000000) 8499999000 = true
+    ∧ ttlAllowed (Gen.C30.keylessExpirySkew + 10 * second - 1500000000) (ttlOf (Gen.C30.keylessExpirySkew + 10 * second - 0)) = false
+    ∧ ttlAllowed (Gen.C30.keylessExpirySkew + 2 * second - 3000000000) (ttlOf (Gen.C30.keylessExpirySkew + 2 * second - 0)) = false := by
+  decide
+example : ∃ na stale ret : Int, stale < ret ∧ second < na - stale - Gen.C30.keylessExpirySkew
+    ∧ na - ret - Gen.C30.keylessExpirySkew < Gen.C30.keylessPositiveTTL :=
+  ⟨Gen.C30.keylessExpirySkew + 2 * second, 0, 3 * second, by decide⟩
 
 end Specter.C30
